@@ -429,6 +429,17 @@ func wholeRun(o *kit.Out, r *kit.Rand, idx int, m *metrics.Metrics) {
 			}()
 		},
 	}
+	if idx%3 == 2 {
+		// the run is interrupted (a cancelled context is what SIGINT / SIGTERM amount to) somewhere in
+		// the middle: every iteration that ran is in the totals all the same
+		ctx, cancelRun := context.WithCancel(context.Background())
+		defer cancelRun()
+		cfg.Ctx = ctx
+		cfg.OnRun = nil // no forced snapshots: what ran since the last progress line is still in its period
+		after := time.Duration(r.Range(40, 140)) * time.Millisecond
+		go func() { time.Sleep(after); cancelRun() }()
+		o.Count("ending", "interrupted mid-run")
+	}
 	out, hung, dump := runkit.DoTimeout(cfg, 60*time.Second)
 	stop.Store(true)
 	if hung {
